@@ -55,7 +55,7 @@ macro_rules! same_by_debug {
 
 // ------------------------------------------------------------------ structs
 
-#[derive(Debug, Clone, Serialize, Deserialize, AvroSchema)]
+#[derive(Debug, Clone, PartialEq, Serialize, Deserialize, AvroSchema)]
 pub struct Inner {
     pub x: i32,
     pub y: String,
@@ -359,10 +359,16 @@ impl Corpus for Recursive {
     }
 }
 
-#[derive(Debug, Clone, Serialize, Deserialize, AvroSchema)]
+#[derive(Debug, Clone, PartialEq, Serialize, Deserialize, AvroSchema)]
 pub struct Generic<T: apache_avro::AvroSchemaComponent> {
     pub value: T,
     pub list: Vec<T>,
+}
+impl<T: apache_avro::AvroSchemaComponent> Generic<T> {
+    pub fn arb_with(c: &mut Choices, mut f: impl FnMut(&mut Choices) -> T) -> Self {
+        let value = f(c);
+        Generic { value, list: vecn(c, f) }
+    }
 }
 impl Corpus for Generic<i64> {
     fn arb(c: &mut Choices) -> Self {
@@ -538,6 +544,196 @@ impl Corpus for InternallyTagged {
             0 => InternallyTagged::A {},
             1 => InternallyTagged::B { x: gen_int(c) },
             _ => InternallyTagged::C { y: gen_int(c), s: string(c) },
+        }
+    }
+    same_by_debug!();
+}
+
+// ------------------------------------------------------------------ second batch: repeated named
+// component types, renaming precedence, namespaces, deeper nestings
+
+/// Each of the library-defined named component types more than once in one type.
+#[derive(Debug, Clone, Serialize, Deserialize, AvroSchema)]
+pub struct RepeatedComponents {
+    pub d1: std::time::Duration,
+    pub d2: std::time::Duration,
+    pub ds: Vec<std::time::Duration>,
+    pub od: Option<std::time::Duration>,
+    pub a1: u64,
+    pub a2: u64,
+    pub b1: i128,
+    pub b2: Option<i128>,
+    pub c1: u128,
+    pub c2: Vec<u128>,
+    pub u1: uuid::Uuid,
+    pub u2: Option<uuid::Uuid>,
+}
+impl Corpus for RepeatedComponents {
+    fn arb(c: &mut Choices) -> Self {
+        let dur = |c: &mut Choices| std::time::Duration::new([0u64, 1, 86_400, u32::MAX as u64, u64::MAX / 4][c.pick(5)], [0u32, 1, 999_999_999][c.pick(3)]);
+        let u = |c: &mut Choices| {
+            let b = c.bytes(16);
+            let mut a = [0u8; 16];
+            a.copy_from_slice(&b);
+            uuid::Uuid::from_bytes(a)
+        };
+        RepeatedComponents {
+            d1: dur(c),
+            d2: dur(c),
+            ds: vecn(c, dur),
+            od: opt(c, dur),
+            a1: c.raw(),
+            a2: [0, u64::MAX][c.pick(2)],
+            b1: [0, -1, i128::MAX, i128::MIN][c.pick(4)],
+            b2: opt(c, |c| [1i128 << 100, -5][c.pick(2)]),
+            c1: [0, u128::MAX][c.pick(2)],
+            c2: vecn(c, |c| c.raw() as u128 * 0x1_0000_0001),
+            u1: u(c),
+            u2: opt(c, u),
+        }
+    }
+    same_by_debug!();
+}
+
+/// The variant's own rename_all takes precedence over the enum's rename_all_fields (serde's rule).
+#[derive(Debug, Clone, Serialize, Deserialize, AvroSchema)]
+#[avro(repr = "union_of_records")]
+#[serde(rename_all_fields = "SCREAMING_SNAKE_CASE")]
+pub enum RenameAllFields {
+    Plain {
+        side_length: i32,
+    },
+    #[serde(rename_all = "camelCase")]
+    Own {
+        side_length: i32,
+        other_side: String,
+    },
+    #[serde(rename = "renamed_variant")]
+    Renamed {
+        inner_value: Option<i64>,
+    },
+    Unit,
+}
+impl Corpus for RenameAllFields {
+    fn arb(c: &mut Choices) -> Self {
+        match c.pick(4) {
+            0 => RenameAllFields::Plain { side_length: gen_int(c) },
+            1 => RenameAllFields::Own { side_length: gen_int(c), other_side: string(c) },
+            2 => RenameAllFields::Renamed { inner_value: opt(c, gen_long) },
+            _ => RenameAllFields::Unit,
+        }
+    }
+    same_by_debug!();
+    fn interesting(&self) -> bool {
+        !matches!(self, RenameAllFields::Unit)
+    }
+}
+
+#[derive(Debug, Clone, PartialEq, Serialize, Deserialize, AvroSchema)]
+#[serde(rename_all = "snake_case")]
+#[avro(namespace = "corpus.other")]
+pub enum SnakeEnum {
+    FirstValue,
+    SecondValue,
+    #[serde(rename = "third")]
+    ThirdValue,
+}
+impl Corpus for SnakeEnum {
+    fn arb(c: &mut Choices) -> Self {
+        [SnakeEnum::FirstValue, SnakeEnum::SecondValue, SnakeEnum::ThirdValue][c.pick(3)].clone()
+    }
+    same_by_debug!();
+}
+
+#[derive(Debug, Clone, PartialEq, Serialize, Deserialize, AvroSchema)]
+#[serde(rename_all = "PascalCase")]
+#[avro(namespace = "corpus.inner")]
+pub struct PascalInner {
+    pub some_number: i32,
+    pub the_enum: SnakeEnum,
+}
+
+/// Types from three namespaces nested in each other, each used in several positions.
+#[derive(Debug, Clone, PartialEq, Serialize, Deserialize, AvroSchema)]
+#[serde(rename_all = "SCREAMING_SNAKE_CASE")]
+#[avro(namespace = "corpus.outer")]
+#[serde(rename = "NamespacedOuter")]
+pub struct Namespaced {
+    pub direct_inner: PascalInner,
+    pub optional_inner: Option<PascalInner>,
+    pub many_inner: Vec<PascalInner>,
+    pub keyed_inner: HashMap<String, PascalInner>,
+    pub direct_enum: SnakeEnum,
+    pub plain_inner: Inner,
+}
+impl Corpus for Namespaced {
+    fn arb(c: &mut Choices) -> Self {
+        let pi = |c: &mut Choices| PascalInner { some_number: gen_int(c), the_enum: SnakeEnum::arb(c) };
+        Namespaced { direct_inner: pi(c), optional_inner: opt(c, pi), many_inner: vecn(c, pi), keyed_inner: mapn(c, pi), direct_enum: SnakeEnum::arb(c), plain_inner: Inner::arb(c) }
+    }
+    fn same(&self, other: &Self) -> bool {
+        self == other
+    }
+}
+
+#[derive(Debug, Clone, PartialEq, Serialize, Deserialize, AvroSchema)]
+pub struct DeepNest {
+    pub m: HashMap<String, Vec<Option<Inner>>>,
+    pub o: Option<Vec<HashMap<String, i32>>>,
+    pub b: Box<Inner>,
+    pub vv: Vec<Vec<Option<String>>>,
+    pub g: Generic<Option<String>>,
+}
+impl Corpus for DeepNest {
+    fn arb(c: &mut Choices) -> Self {
+        DeepNest {
+            m: mapn(c, |c| vecn(c, |c| opt(c, Inner::arb))),
+            o: opt(c, |c| vecn(c, |c| mapn(c, gen_int))),
+            b: Box::new(Inner::arb(c)),
+            vv: vecn(c, |c| vecn(c, |c| opt(c, string))),
+            g: Generic::<Option<String>>::arb_with(c, |c| opt(c, string)),
+        }
+    }
+    fn same(&self, other: &Self) -> bool {
+        self == other
+    }
+}
+
+/// One generic type instantiated with two different parameters in one schema (both instantiations
+/// derive the same Avro name: the known finding C17/*/TwoInstantiations).
+#[derive(Debug, Clone, PartialEq, Serialize, Deserialize, AvroSchema)]
+pub struct TwoInstantiations {
+    pub a: Generic<i64>,
+    pub b: Generic<String>,
+}
+impl Corpus for TwoInstantiations {
+    fn arb(c: &mut Choices) -> Self {
+        TwoInstantiations { a: Generic::<i64>::arb_with(c, gen_long), b: Generic::<String>::arb_with(c, string) }
+    }
+    fn same(&self, other: &Self) -> bool {
+        self == other
+    }
+}
+
+/// Adjacently tagged enum with renamed variants and fields.
+#[derive(Debug, Clone, Serialize, Deserialize, AvroSchema)]
+#[avro(repr = "record_tag_content")]
+#[serde(tag = "t", content = "c", rename_all = "snake_case")]
+pub enum TagContentRenamed {
+    UnitLike,
+    NewType(String),
+    #[serde(rename_all = "camelCase")]
+    WithFields {
+        first_one: i32,
+        second_one: Option<String>,
+    },
+}
+impl Corpus for TagContentRenamed {
+    fn arb(c: &mut Choices) -> Self {
+        match c.pick(3) {
+            0 => TagContentRenamed::UnitLike,
+            1 => TagContentRenamed::NewType(string(c)),
+            _ => TagContentRenamed::WithFields { first_one: gen_int(c), second_one: opt(c, string) },
         }
     }
     same_by_debug!();
